@@ -71,7 +71,15 @@ Print Assumptions C10_mirror_bisimulation.
     The releaser of the set-up works in either mode ([s_cont]): discrete release of the table rows at their
     times, or continuous release (discretize() on the frequency grid; tables satisfying C04's [cont_ok]).
     The physics of the set-up includes LAND cells along the particle line ([s_land]): u-faces next to land
-    masked to zero, moves onto land cancelled, death outside the valid interval (stated in Props/C09.v). *)
+    masked to zero, moves onto land cancelled, death outside the valid interval (stated in Props/C09.v).
+    The ADVECTION SCHEME of the tracker is inside the set-up model ([s_adv]: EF, RK2 = midpoint, RK4 = classical,
+    with Forcing.velocity's fractional-step sampling u + f dU at f = 0, 1/2, 1/2, 1 and the masked-face
+    interpolation at every stage position): the theorem covers the three schemes — the
+    reversed clock at step n, stage fraction f, reads the physical time S - (n + f) dt, the mirrored forward clock
+    reads its mirror image, and the sign flip of the frames cancels the negation of the reversed run.  Well-formedness ([setup_ok])
+    includes [no_clip]: no frame moves a particle by more than 98/100 (RK2) / 49/100 (RK4) of a cell per step, so
+    that the clip of the stage positions in tracker.py — not modelled — is the identity ([C14_stages_never_clipped]
+    in Props/C14.v); set-ups with a faster flow under RK2 / RK4 are EXCLUDED. *)
 Theorem C10_closed_mirror : forall s, setup_ok s = true ->
   setup_ok (mirror_setup s) = true /\ srel pv pv Z pv_eq (m_run s) (m_run (mirror_setup s)).
 Proof. exact mirror_invariance. Qed.
@@ -103,6 +111,40 @@ Example C10_closed_cont_ex :
   map rt (s_tab (mirror_setup ex_setup_cont)) = [0; -2400; -2400; -3600] /\
   show_run (m_run (mirror_setup ex_setup_cont)) = show_run (m_run ex_setup_cont) /\
   map (fun r : rec pv => (rstep r, length (rrows r))) (recs (m_run ex_setup_cont)) = [(0, 1%nat); (2, 2%nat); (4, 5%nat)].
+Proof. vm_compute. repeat split. Qed.
+
+(** non-vacuity, RK2 / RK4: the reversed set-ups [ex_setup_rk2] (RK2), [ex_setup_rk4] (RK4), [ex_setup_land_rk2] and
+    [ex_setup_land_rk4] (land in cell 4: the stage positions matter) of Model/Setup.v and their forward mirror
+    images: all well-formed; the mirrored forward run feels the same flow at the stage fractions 0, 1/2, 1 of a
+    step and writes the same records; the particles move otherwise than under EF *)
+Example C10_mirror_ex_rk2 :
+  s_adv (mirror_setup ex_setup_rk2) = 1 /\ rev (s_tk ex_setup_rk2) = true /\ rev (s_tk (mirror_setup ex_setup_rk2)) = false /\
+  setup_ok ex_setup_rk2 = true /\ setup_ok (mirror_setup ex_setup_rk2) = true /\
+  map Qred [m_uf ex_setup_rk2 0 0; m_uf ex_setup_rk2 0 (1 # 2); m_uf ex_setup_rk2 0 1] = [(-15)%Q; (-13)%Q; (-11)%Q] /\
+  map Qred [m_uf (mirror_setup ex_setup_rk2) 0 0; m_uf (mirror_setup ex_setup_rk2) 0 (1 # 2); m_uf (mirror_setup ex_setup_rk2) 0 1] =
+    [(-15)%Q; (-13)%Q; (-11)%Q] /\
+  show_run (m_run (mirror_setup ex_setup_rk2)) = show_run (m_run ex_setup_rk2) /\
+  map (fun x : rec pv => map (fun y : Z * Z * pv => Qred (vx (snd y))) (rrows x)) (recs (m_run ex_setup_rk2)) =
+    [[5%Q]; [(29 # 8)%Q; 6%Q; 6%Q]; [3%Q; (91 # 16)%Q; (91 # 16)%Q]] /\
+  map (fun x : rec pv => map (fun y : Z * Z * pv => Qred (vx (snd y))) (rrows x)) (recs (m_run (with_adv ex_setup_rk2 0))) =
+    [[5%Q]; [(27 # 8)%Q; 6%Q; 6%Q]; [(21 # 8)%Q; (45 # 8)%Q; (45 # 8)%Q]] /\
+  setup_ok ex_setup_land_rk2 = true /\ setup_ok (mirror_setup ex_setup_land_rk2) = true /\
+  show_run (m_run (mirror_setup ex_setup_land_rk2)) = show_run (m_run ex_setup_land_rk2).
+Proof. vm_compute. repeat split. Qed.
+Example C10_mirror_ex_rk4 :
+  s_adv (mirror_setup ex_setup_rk4) = 2 /\ rev (s_tk ex_setup_rk4) = true /\ rev (s_tk (mirror_setup ex_setup_rk4)) = false /\
+  setup_ok ex_setup_rk4 = true /\ setup_ok (mirror_setup ex_setup_rk4) = true /\
+  show_run (m_run (mirror_setup ex_setup_rk4)) = show_run (m_run ex_setup_rk4) /\
+  map (fun x : rec pv => map (fun y : Z * Z * pv => Qred (vx (snd y))) (rrows x)) (recs (m_run ex_setup_rk4)) =
+    [[5%Q]; [(69 # 16)%Q; 6%Q; 6%Q]; [4%Q; (187 # 32)%Q; (187 # 32)%Q]] /\
+  map (fun x : rec pv => map (fun y : Z * Z * pv => Qred (vx (snd y))) (rrows x)) (recs (m_run (with_adv ex_setup_rk4 0))) =
+    [[5%Q]; [(67 # 16)%Q; 6%Q; 6%Q]; [(61 # 16)%Q; (93 # 16)%Q; (93 # 16)%Q]] /\
+  setup_ok ex_setup_land_rk4 = true /\ setup_ok (mirror_setup ex_setup_land_rk4) = true /\
+  show_run (m_run (mirror_setup ex_setup_land_rk4)) = show_run (m_run ex_setup_land_rk4) /\
+  map (fun x : rec pv => map (fun y : Z * Z * pv => Qred (vx (snd y))) (firstn 1 (rrows x))) (firstn 3 (recs (m_run ex_setup_land_rk4))) =
+    [[5%Q]; [(243257965 # 50331648)%Q]; [(2006116605294515 # 422212465065984)%Q]] /\
+  map (fun x : rec pv => map (fun y : Z * Z * pv => Qred (vx (snd y))) (firstn 1 (rrows x))) (firstn 3 (recs (m_run (with_adv ex_setup_land_rk4 1)))) =
+    [[5%Q]; [(19843 # 4096)%Q]; [(39965417 # 8388608)%Q]].
 Proof. vm_compute. repeat split. Qed.
 
 Example C10_ex :
